@@ -8,10 +8,10 @@ CONSTANTS
   DefVals <- DefValsDef
   StepPool <- StepPoolDef
   ExtrasPool = {1}
-  MaxAssets = 3
-  MaxAssocs = 2
-  MaxAtk = 1
-  MaxH = 8
+  MaxAssets = 4
+  MaxAssocs = 4
+  MaxAtk = 2
+  MaxH = 40
   MaxMembers = 2
 CONSTRAINT Bound
 CONSTRAINT StopAtEnd
